@@ -265,6 +265,16 @@ class NetSim(BaseEngine):
             raise Violation('address-roundtrip', f'format_address(*parse_address({canon!r})) = {again!r}')
         stats['addresses_checked'] += 1
 
+    def _check_release(self, plan, net):
+        """C11 only: a port releases its device (here: closes its socket) exactly once."""
+        if plan.get('prop') != 'C11':
+            return
+        for sk in net.all_sockets:
+            if sk._io_refs != 0 or sk.close_calls > 1:
+                if sk.close_calls > 1:
+                    raise Violation('device-release-count@socket', f'a socket port closed its socket {sk.close_calls} '
+                                                                   f'times (released more than once)')
+
     def _guard(self, where, fn, *a, expect=()):
         try:
             return ('ok', fn(*a))
@@ -568,6 +578,7 @@ class NetSim(BaseEngine):
                                 f'cut {c}: the port consumed the end-of-stream and reports closed, but the peer (which '
                                 f'only shut down its sending side) never sees the connection closed')
             stats['probe:peer_sees_close_after_eof'] += 1
+        self._check_release(plan, net)
         sim = clock.now - clock.start
         clock.horizon = float('inf')
         try:
@@ -679,6 +690,7 @@ class NetSim(BaseEngine):
         cov.add(f'scn2|{plan["consumer"]}|{plan["closer"]}')
         if a2b or b2a:
             stats['_nontrivial'] += 1
+        self._check_release(plan, net)
         sim = clock.now - clock.start
         clock.horizon = float('inf')
         for p in (client, sconn, server):
@@ -903,6 +915,7 @@ class NetSim(BaseEngine):
                                 f'the server port was closed but client {ci} (of {len(plan["clients"])}) never reached '
                                 f'end-of-stream')
             stats['probe:server_close_seen_by_client'] += 1
+        self._check_release(plan, net)
         return sim
 
     # ------------------------------------------------------------------ shrinking
